@@ -21,11 +21,11 @@ theorem unescape_escape (s : Str) : unescape (escape s) = s := by
   | cons c r ih =>
     by_cases h : special c = true
     · simp only [special, Bool.or_eq_true, beq_iff_eq] at h
-      rcases h with (((rfl | rfl) | rfl) | rfl) | rfl <;> simp [escape, escChar, unescape, ih]
+      rcases h with ((((rfl | rfl) | rfl) | rfl) | rfl) | rfl <;> simp [escape, escChar, unescape, ih]
     · have hs : special c = false := by simpa using h
       simp only [escape, escChar_of_not_special c hs, List.singleton_append]
       simp only [special, Bool.or_eq_false_iff, beq_eq_false_iff_ne, ne_eq] at hs
-      have hc : c ≠ '&' := hs.1.1.1.1
+      have hc : c ≠ '&' := hs.1.1.1.1.1
       rw [unescape.eq_def]
       split <;> simp_all
 
